@@ -54,12 +54,24 @@ fn shapes(n: usize, kind: usize, bounded: Option<usize>) -> Vec<(String, String)
     ]
 }
 
+/// the program is given as a file, as an inline argument or on stdin with `-e`, in rotation
 fn run_bin(bin: &str, src: &str, tag: &str) -> (Option<i32>, String, String) {
+    use std::io::Write;
     let dir = std::env::temp_dir().join(format!("vharness-{}-c18-{}", std::process::id(), tag));
     let _ = std::fs::create_dir_all(&dir);
-    let f = dir.join("p.blots");
-    let _ = std::fs::write(&f, src);
-    let out = Command::new("timeout").arg("60").arg(bin).arg(&f).stdin(Stdio::null()).stdout(Stdio::piped()).stderr(Stdio::piped()).output();
+    let mode = tag.bytes().map(|b| b as usize).sum::<usize>() % 3;
+    let out = match mode {
+        0 => {
+            let f = dir.join("p.blots");
+            let _ = std::fs::write(&f, src);
+            Command::new("timeout").arg("60").arg(bin).arg(&f).stdin(Stdio::null()).stdout(Stdio::piped()).stderr(Stdio::piped()).output()
+        }
+        1 => Command::new("timeout").arg("60").arg(bin).arg(src).stdin(Stdio::null()).stdout(Stdio::piped()).stderr(Stdio::piped()).output(),
+        _ => Command::new("timeout").arg("60").arg(bin).arg("-e").stdin(Stdio::piped()).stdout(Stdio::piped()).stderr(Stdio::piped()).spawn().and_then(|mut ch| {
+            let _ = ch.stdin.take().unwrap().write_all(src.as_bytes());
+            ch.wait_with_output()
+        }),
+    };
     let _ = std::fs::remove_dir_all(&dir);
     match out {
         Ok(o) => (o.status.code(), String::from_utf8_lossy(&o.stdout).to_string(), String::from_utf8_lossy(&o.stderr).to_string()),
@@ -91,8 +103,12 @@ pub fn run(ctx: &Ctx, rep: &mut Report) {
                 rep.count(&format!("shape.{}", name));
             }
             // bounded recursion a few hundred calls deep completes
-            for d in [150usize, 300] {
+            for d in [150usize, 300, 900] {
                 for (name, src) in shapes(n.min(8), kind, Some(d)) {
+                    // close to the limit: only shapes that cost one call level per step, light bodies
+                    if d == 900 && !(n <= 2 && matches!(name.as_str(), "self" | "mutual" | "into" | "param" | "field" | "listfn")) {
+                        continue;
+                    }
                     k += 1;
                     // callbacks of built-ins cost three call levels per recursion step
                     if name == "where" || name == "reduce" || ((name == "map" || name == "fixpoint") && d > 200) {
